@@ -89,7 +89,7 @@ fn history_engines(tier: Tier, budget: f64) -> (BfsStats, Vec<Found>, Vec<String
     {
         crate::monitors::set_grid_monitors(true);
         let t = std::time::Instant::now();
-        let slice = tier.pick(6.0, 120.0);
+        let slice = tier.pick(5.0, 120.0);
         let mut seen = std::collections::HashSet::new();
         for (name, (n, vs)) in [("c05", crate::c05::monitored(slice)), ("c07", crate::c07::monitored(slice)), ("c08", crate::c08::monitored(slice))] {
             stats.transitions += n;
@@ -122,6 +122,10 @@ fn history_engines(tier: Tier, budget: f64) -> (BfsStats, Vec<Found>, Vec<String
     merge_stats(&mut stats, &r.stats);
     found.extend(r.found);
     models.extend(r.models);
+    let r = crate::chainmc::explore_monitored(tier, budget / 6.0);
+    merge_stats(&mut stats, &r.stats);
+    found.extend(r.found);
+    models.extend(r.models);
     let r = crate::payflow::explore(tier, true, budget / 4.0);
     merge_stats(&mut stats, &r.stats);
     found.extend(r.found);
@@ -140,7 +144,7 @@ pub fn c06(tier: Tier) -> i32 {
 
 pub fn c10(tier: Tier) -> i32 {
     let mut run = Run::new("C10", tier, "model_checking", "history-engines+refusal-monitor");
-    let (stats, found, models) = history_engines(tier, tier.pick(34.0, 1200.0));
+    let (stats, found, models) = history_engines(tier, tier.pick(28.0, 1200.0));
     let others = add_found(&mut run, "C10", &found);
     run.assume("a refusal is a reply that is an error; panics are recorded separately and are not refusals");
     run.assume("state = canonical JSON of every channel slot, the node state (invoices, payments, velocity controls normalised to the current time), the tracker with all monitors, and the store contents (versions dropped)");
@@ -149,7 +153,7 @@ pub fn c10(tier: Tier) -> i32 {
 
 pub fn c11(tier: Tier) -> i32 {
     let mut run = Run::new("C11", tier, "fault_enumeration", "history-engines+durability-monitor");
-    let (stats, found, models) = history_engines(tier, tier.pick(34.0, 1200.0));
+    let (stats, found, models) = history_engines(tier, tier.pick(28.0, 1200.0));
     let others = add_found(&mut run, "C11", &found);
     run.assume("crash points are between requests: after every request of every explored history a second signer is restored from a deep copy of the store and compared field by field with the live one");
     let mut cov = mc_coverage(&stats, &models, json!({"violations_of_other_properties_seen": others}));
